@@ -183,6 +183,9 @@ class Engine:
                 ln = m.eval(sym[1], model_completion=True).as_long()
                 out[name] = "".join(chr(m.eval(c, model_completion=True).as_long()) for c in sym[2][:ln])
             else:
+                if isinstance(sym, tuple) and sym[0] == "bv":
+                    out[name] = m.eval(sym[1], model_completion=True).as_signed_long()
+                    continue
                 v = m.eval(sym, model_completion=True)
                 if z3.is_int_value(v):
                     out[name] = v.as_long()
@@ -272,12 +275,20 @@ class SInt(int):
             return "int", z3.IntVal(o)
         if isinstance(o, float):
             return "float", o
-        return None
+        return None         # (SRat, Fraction, ...: handled by the other operand's reflected method)
 
     def _arith(self, o, f, rev=False):
         k = self._num(o)
         if k is None:
-            return NotImplemented
+            from fractions import Fraction
+            if isinstance(o, Fraction):
+                from vf.kengine.rat import SRat
+                a, b = SRat(self.e, 1, self.eng), SRat.of(o, self.eng)
+                return f(b, a) if rev else f(a, b)
+            if type(o).__name__ in ("SRat", "SReal", "SFloat", "DecFloat"):
+                return NotImplemented           # the other operand's reflected method knows what to do
+            # anything else would silently use the dummy machine value of this int subclass
+            raise Unsupported(f"arithmetic of a symbolic int with {type(o).__name__}")
         if k[0] == "int":
             a, b = (k[1], self.e) if rev else (self.e, k[1])
             return self._w(f(a, b))
@@ -285,8 +296,9 @@ class SInt(int):
             a, b = (k[1], z3.ToReal(self.e)) if rev else (z3.ToReal(self.e), k[1])
             return SReal(f(a, b), self.eng)
         if k[0] == "float":
-            r = SReal(z3.ToReal(self.e), self.eng)
-            return f(o, r) if rev else f(r, o)
+            from vf.kengine.rat import SRat
+            a, b = SRat(self.e, 1, self.eng), SRat.of(o, self.eng)     # the float's exact value
+            return f(b, a) if rev else f(a, b)
         return NotImplemented
 
     def __add__(self, o):
@@ -343,6 +355,10 @@ class SInt(int):
         return NotImplemented
 
     def __truediv__(self, o):
+        from fractions import Fraction
+        if isinstance(o, (int, float, Fraction)) and not isinstance(o, SInt):
+            from vf.kengine.rat import SRat
+            return SRat(self.e, 1, self.eng) / o          # exact rational (true division of integers)
         return SReal(z3.ToReal(self.e), self.eng) / o
 
     def __rtruediv__(self, o):
@@ -409,6 +425,10 @@ class SInt(int):
     def _cmp(self, o, f):
         k = self._num(o)
         if k is None:
+            from fractions import Fraction
+            if isinstance(o, Fraction):
+                from vf.kengine.rat import SRat
+                return f(SRat(self.e, 1, self.eng), SRat.of(o, self.eng))
             return NotImplemented
         if k[0] == "int":
             return SBool(f(self.e, k[1]), self.eng)
@@ -525,6 +545,21 @@ class SReal:
         if self.eng.branch(self.e == 0):
             raise ZeroDivisionError("float division by zero")
         return SReal(t / self.e, self.eng)
+
+    def __mod__(self, o):
+        t = self._t(o)
+        if t is None:
+            return NotImplemented
+        if self.eng.branch(t == 0):
+            raise ZeroDivisionError("float modulo")
+        q = z3.ToReal(z3.ToInt(self.e / t))          # floor of the real quotient
+        return SReal(self.e - q * t, self.eng)
+
+    def __rmod__(self, o):
+        t = self._t(o)
+        if t is None:
+            return NotImplemented
+        return SReal(t, self.eng) % self
 
     def __neg__(self):
         return SReal(-self.e, self.eng)
@@ -688,9 +723,12 @@ class SFloat:
 
     def __trunc__(self):
         r = z3.fpRoundToIntegral(z3.RTZ(), self.e)
+        if getattr(self.eng, "fp_int_as_float", False):
+            return SFloat(r, self.eng)       # an integer below 2^53 kept in its (exact) binary64 form
         return SInt(z3.ToInt(z3.fpToReal(r)), self.eng)
 
-    __int__ = __trunc__
+    def __int__(self):
+        return self.__trunc__()
 
     def __repr__(self):
         return f"SFloat({self.e})"
